@@ -32,6 +32,7 @@ def parseReq (j : Json) : R Req := do
   match (← getStr j "r") with
   | "pv" => pure (.pairVerify (← getHex j "body"))
   | "prot" => pure (.guarded (← getNat j "kind"))
+  | "resource" => pure .resource
   | "add" => pure (.addPairing (← getHex j "uname") (← getHex j "key") (← getBool j "admin"))
   | "remove" => pure (.removePairing (← getHex j "uname"))
   | "list" => pure .listPairings
@@ -49,6 +50,8 @@ def parseOp (j : Json) : R DOp := do
   | "chunk" => do
     let reqs ← (← getArr j "reqs").toList.mapM parseReq
     pure (.op (.chunk (← getNat j "conn") reqs))
+  | "ready" => pure (.op (.ready (← getNat j "conn") (← getBool j "ok")))
+  | "restart" => pure (.op .restart)
   | "force" => pure (.force (← getNat j "conn") (← getHex j "uuid"))
   | o => throw s!"sess: unknown op {o}"
 
@@ -58,7 +61,8 @@ def runOps (C : Hap.PV.Crypto) (repaired : Bool) : Hap.Sess.Sys → List DOp →
     let s' : Hap.Sess.Sys := match d with
       | .op o => Hap.Sess.step C repaired s o
       | .force c u =>
-        { s with conns := Hap.Sess.setConn s.conns c { pv := { (s.conns c).pv with verified := true, client := some u } } }
+        let sc : Hap.Sess.SConn := { (s.conns c) with pv := { (s.conns c).pv with verified := true, client := some u } }
+        { s with conns := Hap.Sess.setConn s.conns c sc }
     let a := Json.mkObj [
       ("events", Json.arr ((s'.trace.drop s.trace.length).map jevent).toArray),
       ("live", Json.arr (s'.live.map fun (c : Nat) => (c : Json)).toArray),
